@@ -31,14 +31,23 @@ type vfC09Comp struct {
 	B []int  `json:"b"`
 }
 
-type vfC09Case struct {
-	K    string      `json:"k"`
-	Key  []int       `json:"key"`
+type vfC09Step struct {
+	Op   string      `json:"op"`
 	Vals []vfC09Comp `json:"vals"`
-	Idx  []int       `json:"idx"`
-	P    string      `json:"p"`
-	A    []int       `json:"a"`
 	B    []int       `json:"b"`
+	Ix   []int       `json:"ix"`
+}
+
+type vfC09Case struct {
+	Obj   string      `json:"obj"`
+	Steps []vfC09Step `json:"steps"`
+	K     string      `json:"k"`
+	Key   []int       `json:"key"`
+	Vals  []vfC09Comp `json:"vals"`
+	Idx   []int       `json:"idx"`
+	P     string      `json:"p"`
+	A     []int       `json:"a"`
+	B     []int       `json:"b"`
 }
 
 // one record per observation; fields not used by a kind are omitted (never null)
@@ -192,6 +201,12 @@ func vfC09Session(stmt string, cols []ColumnInfo, pkIdx []int, pkeyV4 bool) *Ses
 	s.pool = &policyConnPool{session: s, hostConnPools: map[string]*hostConnPool{
 		"vf-host": {session: s, host: host, size: 1, conns: []*Conn{conn}},
 	}}
+	vfC09AddStmt(s, stmt, cols, pkIdx, pkeyV4)
+	return s
+}
+
+// vfC09AddStmt puts the PREPARE result of one more statement into the session's cache.
+func vfC09AddStmt(s *Session, stmt string, cols []ColumnInfo, pkIdx []int, pkeyV4 bool) {
 	meta := preparedMetadata{keyspace: "ks", table: "tbl"}
 	meta.columns = cols
 	meta.colCount = len(cols)
@@ -211,7 +226,6 @@ func vfC09Session(stmt string, cols []ColumnInfo, pkIdx []int, pkeyV4 bool) *Ses
 	close(done)
 	s.stmtsLRU.add(s.stmtsLRU.keyFor("vf-host", "", stmt), &inflightPrepare{done: done,
 		preparedStatment: &preparedStatment{id: []byte{1}, request: meta}})
-	return s
 }
 
 // vfC09Routing observes the routing key for bound values vals whose partition-key columns are,
@@ -272,6 +286,127 @@ func vfC09Routing(via string, vals []vfC09Comp, idx []int) vfC09Vec {
 		v["out"] = vfC09Ints(out)
 	})
 	return v
+}
+
+func vfC09Bound(vals []vfC09Comp) ([]interface{}, []TypeInfo, []ColumnInfo) {
+	values := make([]interface{}, len(vals))
+	types := make([]TypeInfo, len(vals))
+	cols := make([]ColumnInfo, len(vals))
+	for i, c := range vals {
+		types[i], values[i] = vfC09Value(c)
+		cols[i] = ColumnInfo{Keyspace: "ks", Table: "tbl", Name: "c" + strconv.Itoa(i), TypeInfo: types[i]}
+	}
+	return values, types, cols
+}
+
+func vfC09NewStmt() string {
+	return "SELECT * FROM ks.tbl WHERE vf = " + strconv.FormatInt(atomic.AddInt64(&vfC09StmtN, 1), 10)
+}
+
+// vfC09Seq runs a script on ONE Query (obj "query": bind = Query.Bind, route = Query.RoutingKey(b),
+// clear = Query.RoutingKey(nil), get = Query.GetRoutingKey) or ONE Batch (add = Batch.Query with a
+// statement of its own whose key positions are step.ix, get = Batch.GetRoutingKey).  "outs" holds the
+// key observed at every get; every returned slice stays held and is re-read later ("outs2").
+func vfC09Seq(via, obj string, idx []int, steps []vfC09Step) vfC09Vec {
+	v := vfC09Vec{"k": "rkseq", "via": via, "obj": obj, "idx": idx, "steps": steps, "outs": [][]int{}, "outs2": [][]int{},
+		"err": "", "panic": ""}
+	var held [][]byte
+	v["_re"] = func() {
+		o2 := [][]int{}
+		for _, h := range held {
+			o2 = append(o2, vfC09Ints(h))
+		}
+		v["outs2"] = o2
+	}
+	v["panic"] = vfC09Guard(func() {
+		outs := [][]int{}
+		note := func(out []byte, err error) {
+			if err != nil && v["err"] == "" {
+				v["err"] = "get " + strconv.Itoa(len(outs)+1) + ": " + err.Error()
+			}
+			held = append(held, out)
+			outs = append(outs, vfC09Ints(out))
+			v["outs"] = outs
+		}
+		idx0 := make([]int, len(idx))
+		for i, x := range idx {
+			idx0[i] = x - 1
+		}
+		if obj == "batch" {
+			s := vfC09Session(vfC09NewStmt(), nil, nil, true)
+			b := &Batch{session: s, routingInfo: &queryRoutingInfo{}}
+			for _, st := range steps {
+				switch st.Op {
+				case "add":
+					values, _, cols := vfC09Bound(st.Vals)
+					ix0 := make([]int, len(st.Ix))
+					for i, x := range st.Ix {
+						ix0[i] = x - 1
+					}
+					stmt := vfC09NewStmt()
+					vfC09AddStmt(s, stmt, cols, ix0, true)
+					b.Query(stmt, values...)
+				case "get":
+					note(b.GetRoutingKey())
+				default:
+					panic("vf: unknown batch step " + st.Op)
+				}
+			}
+			return
+		}
+		// the statement's bind markers: taken from the first bind of the script
+		var types []TypeInfo
+		var cols []ColumnInfo
+		for _, st := range steps {
+			if st.Op == "bind" {
+				_, types, cols = vfC09Bound(st.Vals)
+				break
+			}
+		}
+		stmt := vfC09NewStmt()
+		var s *Session
+		switch via {
+		case "query":
+			ktypes := make([]TypeInfo, len(idx0))
+			for i, x := range idx0 {
+				if x < len(types) {
+					ktypes[i] = types[x]
+				}
+			}
+			s = &Session{}
+			s.routingKeyInfoCache.lru = lru.New(4)
+			s.routingKeyInfoCache.lru.Add(stmt, &inflightCachedEntry{
+				value: &routingKeyInfo{indexes: idx0, types: ktypes, keyspace: "ks", table: "tbl"}})
+		case "prepared4", "preparedmeta":
+			s = vfC09Session(stmt, cols, idx0, via == "prepared4")
+		default:
+			panic("vf: unknown via " + via)
+		}
+		q := &Query{stmt: stmt, session: s, routingInfo: &queryRoutingInfo{}}
+		for _, st := range steps {
+			switch st.Op {
+			case "bind":
+				values, _, _ := vfC09Bound(st.Vals)
+				q.Bind(values...)
+			case "route":
+				q.RoutingKey(vfC09Bytes(st.B))
+			case "clear":
+				q.RoutingKey(nil)
+			case "get":
+				note(q.GetRoutingKey())
+			default:
+				panic("vf: unknown query step " + st.Op)
+			}
+		}
+	})
+	return v
+}
+
+func vfC09SeqVias(obj string) []string {
+	if obj == "batch" {
+		return []string{"batch"}
+	}
+	return []string{"query", "prepared4", "preparedmeta"}
 }
 
 var vfC09Vias = []string{"create", "query", "prepared4", "preparedmeta", "batch"}
@@ -363,6 +498,12 @@ func TestVfC09TokenCases(t *testing.T) {
 				v["i"] = i
 				res.put(v)
 			}
+		case "rkseq":
+			for _, via := range vfC09SeqVias(c.Obj) {
+				v := vfC09Seq(via, c.Obj, c.Idx, c.Steps)
+				v["i"] = i
+				res.put(v)
+			}
 		case "cmp":
 			v := vfC09Cmp(c.P, vfC09Bytes(c.A), vfC09Bytes(c.B))
 			v["i"] = i
@@ -424,6 +565,99 @@ func vfC09RandComp(rng *rand.Rand) vfC09Comp {
 	return vfC09Comp{T: "blob", B: vfC09Ints(b)}
 }
 
+func vfC09RandCompOf(rng *rand.Rand, t string) vfC09Comp {
+	for {
+		if c := vfC09RandComp(rng); c.T == t {
+			return c
+		}
+	}
+}
+
+func vfC09RandIdx(rng *rand.Rand, nv int) []int {
+	perm := rng.Perm(nv)
+	nk := 1 + rng.Intn(nv)
+	if nk > 3 {
+		nk = 3
+	}
+	idx := make([]int, nk)
+	for j := range idx {
+		idx[j] = perm[j] + 1
+	}
+	return idx
+}
+
+// a random script on one Query / Batch (see vfC09Seq); an explicit routing key is always cleared
+// before the query is bound again
+func vfC09RandSeq(rng *rand.Rand) vfC09Vec {
+	empty := func(op string) vfC09Step { return vfC09Step{Op: op, Vals: []vfC09Comp{}, B: []int{}, Ix: []int{}} }
+	nv := 1 + rng.Intn(3)
+	base := make([]vfC09Comp, nv)
+	for j := range base {
+		base[j] = vfC09RandComp(rng)
+	}
+	tuple := func() []vfC09Comp {
+		t := make([]vfC09Comp, nv)
+		for j := range t {
+			t[j] = base[j]
+			if rng.Intn(3) > 0 {
+				t[j] = vfC09RandCompOf(rng, base[j].T)
+			}
+		}
+		return t
+	}
+	n := 3 + rng.Intn(6)
+	steps := []vfC09Step{}
+	if rng.Intn(4) == 0 {
+		for len(steps) < n {
+			if rng.Intn(2) == 0 {
+				st := empty("add")
+				m := 1 + rng.Intn(3)
+				for j := 0; j < m; j++ {
+					st.Vals = append(st.Vals, vfC09RandComp(rng))
+				}
+				st.Ix = vfC09RandIdx(rng, m)
+				steps = append(steps, st)
+			} else {
+				steps = append(steps, empty("get"))
+			}
+		}
+		return vfC09Seq("batch", "batch", []int{1}, steps)
+	}
+	idx := vfC09RandIdx(rng, nv)
+	bound, over := false, false
+	first := empty("bind")
+	first.Vals = tuple()
+	for len(steps) < n {
+		switch x := rng.Intn(10); {
+		case x < 4 && !over:
+			st := empty("bind")
+			if !bound {
+				st = first
+			} else {
+				st.Vals = tuple()
+			}
+			steps = append(steps, st)
+			bound = true
+		case x < 8 && (bound || over):
+			steps = append(steps, empty("get"))
+		case x == 8 && bound && !over: // the script needs a bind first so that the statement's types are known
+			st := empty("route")
+			b := make([]byte, 1+rng.Intn(6))
+			rng.Read(b)
+			st.B = vfC09Ints(b)
+			steps = append(steps, st)
+			over = true
+		case x == 9 && over:
+			steps = append(steps, empty("clear"))
+			over = false
+		}
+	}
+	if !over {
+		steps = append(steps, empty("get"))
+	}
+	return vfC09Seq([]string{"query", "prepared4", "preparedmeta"}[rng.Intn(3)], "query", idx, steps)
+}
+
 // a decimal numeral near the token of key (so that comparisons are decided in the low digits)
 func vfC09Near(rng *rand.Rand, p string, key []byte) []byte {
 	var n *big.Int
@@ -475,7 +709,9 @@ func TestVfC09TokenRecord(t *testing.T) {
 	}
 	rng := rand.New(rand.NewSource(seed*104729 + 5))
 	for i := 0; i < n; i++ {
-		switch x := rng.Intn(20); {
+		switch x := rng.Intn(22); {
+		case x >= 20:
+			vec.put(vfC09RandSeq(rng))
 		case x < 8:
 			vec.put(vfC09Hash("m3", vfC09RandKey(rng, 70)))
 		case x < 11:
